@@ -10,6 +10,7 @@ import vlib
 
 def validate_trace(chk, trace, wd, label, module="DocumentTrace", timeout=900):
     """Returns (accepted, events, detail)."""
+    os.makedirs(wd, exist_ok=True)
     cfg = os.path.join(wd, f"{module}.cfg")
     vlib.write_cfg(cfg, spec="TraceSpec", invariants=["TraceInv"], postcondition="Accepted")
     r = vlib.run_tlc(module, cfg, wd, workers=1, timeout=timeout, env={"TRACE": trace}, heap="6g")
